@@ -78,6 +78,7 @@ reg(Spec("C10", "Encoder output does not depend on earlier encode calls", ["Asam
 reg(Spec("C02", "Decoding arbitrary bytes is memory-safe and terminates", ["AsamCmp.Props.C02"],
          ["AsamCmp.C02.decode_inbounds", "AsamCmp.C02.reassembled_length_inbounds", "AsamCmp.C02.walk_count", "AsamCmp.C02.decode_count", "AsamCmp.C02.decode_payload_present", "AsamCmp.C02.decode_state_ok", "AsamCmp.C02.decode_null", "AsamCmp.C02.decode_short"], ["AsamCmp.Props.C02"], gen_dec.gen_c02, view=gen_dec.structure_view,
          predicate=gen_dec.pred_c02,
+         partial="'returned packets own their data after the buffer / decoder is released' is about object lifetime; observed by the harness (exact-size heap input freed before packets are read back, decoder destroyed before the last read, all under ASan), not proved",
          rule="well-formed frames of every kind truncated at every offset and with every length/type/flag field corrupted, TECMP frames of all message types, random byte strings, histories; inputs live in exact-size heap blocks freed before the packets are read back, the decoder is destroyed before the last read; view = packet count, payload length and validity, sanitizer verdict"))
 reg(Spec("C04", "Decoded packets report exactly what is on the wire", ["AsamCmp.Props.C04"],
          ["AsamCmp.C04.C04_wire", "AsamCmp.C04.C04_pad", "AsamCmp.C04.C04_truncate", "AsamCmp.C04.C04_invalid_marked"], ["AsamCmp.Props.C04"], gen_dec.gen_c04, predicate=gen_dec.pred_c04,
